@@ -9,6 +9,7 @@ sys.path.insert(0, os.path.join(os.path.dirname(os.path.abspath(__file__)), ".."
 import synclib  # noqa: E402
 
 T = synclib.TICK
+BIG = [False]      # thorough tier: 3-actor programs under the model checker more often
 
 
 def gen_normal(rng, pid):
@@ -50,7 +51,7 @@ def gen_normal(rng, pid):
 
 
 def gen_mc(rng, pid):
-    na = 2 if rng.chance(2, 3) else 3
+    na = 3 if rng.chance(1, 3 if BIG[0] else 10) else 2
     n = rng.range(1, na)
     rounds = rng.range(1, 2) if na == 2 else 1
     if n == 1 and na == 3:
@@ -70,6 +71,7 @@ def keyfn(v):
 
 
 def run(ctx):
+    BIG[0] = ctx.tier == "thorough"
     ctx.cov["rule"] = ("programs of 1-6 actors calling wait on 1-2 barriers of size 1..6, 1-6 waits per actor separated by dyadic "
                        "sleeps (arrival orders vary); classes: reuse over several rounds with more actors than n, n = all actors "
                        "in a chosen order, random (may end blocked: incomplete last group); MC: 2-3 actors, all interleavings. "
